@@ -22,8 +22,8 @@ CLAIMED = {
              "LIMIT/OFFSET wins, independent options commute, an alias goes to the FROM item added last; (C) that model is "
              "compared call by call (all fields) with the implementation on reflection-driven histories from the entry points.",
         note="Partial: that the separators are the grammar's keywords for the slot and that part texts do not disturb the clause "
-             "structure is evaluated by the reader on every case, not proved; the API model omits ApplyIf and "
-             "ApplySelectJson (function arguments; covered by (A) and C19); the reader is a hand-written formalisation of gram.y at clause level. D4/D5/D6 and the "
+             "structure is evaluated by the reader on every case, not proved; the function arguments of ApplyIf / "
+             "ApplySelectJson enter the API model as the value they return; the reader is a hand-written formalisation of gram.y at clause level. D4/D5/D6 and the "
              "D7 sites in condition lists are recorded findings, not repaired.",
         ref="DESIGN.md §6 C01"),
     "C02": dict(
@@ -257,7 +257,7 @@ CLAIMED = {
              "C20_constructor_preserves_wf / C20_method_preserves_wf / C20_built_no_panic: the same for the expression constructors "
              "and the ExpBase methods (Model/Ctor.v) and for any nesting of modelled calls whose expression arguments are built likewise.",
         note="Partial: C20_built_no_panic covers the modelled API (Model/Api.v, Model/Ctor.v); package fn (thin wrappers, C18), Float, the JSON "
-             "object builder (C16), the CASE chain, ApplyIf and ApplySelectJson are outside `built` - for them reachable => wfe is "
+             "object builder (C16) and the CASE chain are outside `built` - for them reachable => wfe is "
              "checked on generated values only; Go runtime stack exhaustion / allocation failure not modelled.",
         ref="DESIGN.md §6 C20"),
 }
